@@ -85,19 +85,44 @@ let run_file rtl f =
   let ops = List.filter_map (fun l -> match tokens l with
       | [] -> None
       | t :: _ when t.[0] = '#' -> None
-      | tk -> Some (parse_op tk)) (read_lines f) in
+      | ["heapmark"] -> Some `Mark
+      | ["heapcheck"] -> Some `Check
+      | tk -> Some (`Op (parse_op tk, String.concat " " tk))) (read_lines f) in
   let fuel = nat_of_int 40 in
   let w = ref world0 in
   let legal = ref true in
-  List.iter (fun o ->
+  let mark = ref (footprint world0) in
+  let hist = ref [] and before_mark = ref [] and since_mark = ref [] in
+  let print_vals w' =
+    let vs = List.sort compare (List.map (fun (p, pr) -> (int_of_nat p, int_of_z pr.pr_value, pr.pr_updater <> None)) w'.w_props) in
+    Printf.printf "vals%s\n" (String.concat "" (List.map (fun (p, v, b) -> Printf.sprintf " %d:%d%s" p v (if b then "b" else "")) vs)) in
+  List.iter (function
+    | `Mark -> mark := footprint !w; before_mark := !hist; since_mark := []; print_string "done ok\n"; print_vals !w
+    | `Check ->
+      (* C19: a tested cycle = the operations since the mark are a sequence P repeated k >= 1 times, the same P was executed at least
+         twice directly before the mark (warm-up: vectors and free lists of the library have reached their steady capacity), and
+         the model's footprint is what it was at the mark.  Then the real library must hold exactly the bytes it held at the mark. *)
+      let s = Array.of_list (List.rev !since_mark) in
+      let n = Array.length s in
+      let periodic p = n mod p = 0 && (let ok = ref true in for i = p to n - 1 do if s.(i) <> s.(i - p) then ok := false done; !ok) in
+      let rec minp p = if p > n then 0 else if periodic p then p else minp (p + 1) in
+      let p = if n = 0 then 0 else minp 1 in
+      let warmed =
+        p > 0 &&
+        (let b = Array.of_list !before_mark in      (* newest first *)
+         Array.length b >= 2 * p &&
+         (let ok = ref true in
+          for i = 0 to 2 * p - 1 do if b.(i) <> s.(p - 1 - (i mod p)) then ok := false done; !ok)) in
+      print_string (if warmed && footprint !w = !mark then "heap 0\n" else "heap unsteady\n"); print_string "done ok\n"; print_vals !w
+    | `Op (o, raw) ->
+      hist := raw :: !hist; since_mark := raw :: !since_mark;
       let before = List.length !w.w_trace in
       let w' = step fn_std rtl fuel !w o in
       let tr = w'.w_trace in
       let fresh = List.length tr - before in
       let rec firstn k l = if k = 0 then [] else match l with [] -> [] | x :: r -> x :: firstn (k - 1) r in
       List.iter print_event (List.rev (firstn fresh tr));
-      let vs = List.sort compare (List.map (fun (p, pr) -> (int_of_nat p, int_of_z pr.pr_value, pr.pr_updater <> None)) w'.w_props) in
-      Printf.printf "vals%s\n" (String.concat "" (List.map (fun (p, v, b) -> Printf.sprintf " %d:%d%s" p v (if b then "b" else "")) vs));
+      print_vals w';
       (* lines starting with '#' are the model's own property checkers: not compared with the implementation *)
       (* pinv: the link invariant proved in coq/PropLinkOps.v, evaluated on this world as long as no operation so far was
          answered with "not a legal program / not modelled" *)
